@@ -594,8 +594,9 @@ func checkIndexSinks(c *core.Ctx, rule string) {
 					hc, lc := hi.Canon(), lo.Canon()
 					switch {
 					case strings.HasPrefix(hc, "("+lc+" + ") && strings.HasSuffix(hc, ")"):
+						// lo ≤ lo+n needs n ≥ 0 and no int64 overflow of the sum: n must be bounded by the length
 						n := absint.S(strings.TrimSuffix(strings.TrimPrefix(hc, "("+lc+" + "), ")"))
-						okOrder = f.nonNeg(n)
+						okOrder = f.nonNeg(n) && f.le(n, L)
 					case hc == L:
 						okOrder = f.le(lo, L)
 					default:
@@ -605,7 +606,7 @@ func checkIndexSinks(c *core.Ctx, rule string) {
 						}
 					}
 					if !okOrder {
-						viols = append(viols, viol{e.Pos(), core.ExprStr(e) + ": lower bound ≤ upper bound is not shown on a path with assumptions " + showAssumed(st.Assumed)})
+						viols = append(viols, viol{e.Pos(), core.ExprStr(e) + ": lower bound ≤ upper bound is not shown (a sum of two query-controlled integers may overflow int64 and turn negative) on a path with assumptions " + showAssumed(st.Assumed)})
 					}
 				}
 			} else if lo != nil && !f.le(lo, L) {
